@@ -19,6 +19,7 @@ structure DriverState where
   sdb : SDB.S := {}
   msgtree : MsgTree.State := {}
   ft : FunToken.State := {}
+  gspec : GethSpec.G := {}
 
 def splitArgs (line : String) : List String :=
   (line.trimAscii.toString.splitOn " ").filter (· ≠ "")
@@ -54,6 +55,9 @@ def stepLine (st : DriverState) (line : String) : DriverState × String :=
   | "msgtree" :: args =>
     let (s', out) := MsgTree.step (MsgTree.guardOfFacts Generated.commissionDecoratorCases) st.msgtree args
     ({ st with msgtree := s' }, out)
+  | "gspec" :: args =>
+    let (s', out) := GethSpec.step st.gspec args
+    ({ st with gspec := s' }, out)
   | "ft" :: args =>
     let (s', out) := FunToken.stepLine st.ft args
     ({ st with ft := s' }, out)
